@@ -1,6 +1,7 @@
 /-
 Props/C09.lean — C09: LB_Keogh ≤ DTW ≤ Euclidean upper bound.
 -/
+import Dtaiverif.Props.CBand
 import Dtaiverif.Proofs.Bounds
 import Dtaiverif.Proofs.CostInst
 
